@@ -34,8 +34,8 @@ REGISTRY = dict(
           "after the rename: truncated pickle under the advertised name, previous snapshot gone) although its undisturbed runs "
           "end in the same directory. Exception semantics (unwindStates: the handler runs on the directory the exception leaves): the current code has no handler and "
           "is safe; os.replace in a finally: clause has a kernel-checked counterexample (exception inside the write, truncated .new renamed "
-          "over the last good snapshot). KNOWN FINDING on the unchanged tree (autosave-suffix-new-in-place, Props.C27.aliased_counterexample, "
-          "replayed on every run): a back-end resumed from a file whose suffix is .new writes its autosaves in place. The "
+          "over the last good snapshot). Finding A1-C27 (fixed by 8d35338; Props.C27.aliased_counterexample for the old naming, appended_temp_name_distinct for the new; "
+          "witness replayed on every run): a back-end resumed from a file whose suffix is .new wrote its autosaves in place. The "
           "three-step variant removed by commit 3262c67 is modelled separately with a kernel-checked counterexample "
           "(nothing under the advertised name between the two renames). Model tied to the code by exact comparison of "
           "the operation trace and of the directory after an exception (Crash(BaseException), OSError ENOSPC, MemoryError, KeyboardInterrupt) "
@@ -117,8 +117,8 @@ def save_level(rep: Report, cx: Ctx, rng, sysd, reorder, n_saves, leftovers_full
                 for (lnew, lbak) in combos:
                     def reset():
                         U.put_file(base, prev, blobs)
-                        U.put_file(base.with_suffix(".new"), lnew, blobs)
-                        U.put_file(base.with_suffix(".bak"), lbak, blobs)
+                        U.put_file(U.new_path(base), lnew, blobs)
+                        U.put_file(U.bak_path(base), lbak, blobs)
                         impl.last_save_time = 0.0
                         ip.save_calls = j - 1
                         ip.crash, ip.crash_save, ip.fired = None, None, False
@@ -209,7 +209,7 @@ def save_level(rep: Report, cx: Ctx, rng, sysd, reorder, n_saves, leftovers_full
                 reset()
                 U.put_file(base, f"c{j}", blobs)
                 ip.save_calls = j
-            for q in (base, base.with_suffix(".new"), base.with_suffix(".bak")):
+            for q in (base, U.new_path(base), U.bak_path(base)):
                 if q.exists():
                     q.unlink()
 
@@ -310,8 +310,8 @@ def kill_level(rep: Report, cx: Ctx, rng, sysd, reorder, ref, pad: int, n_saves:
 
                 def reset():
                     U.put_file(base, prev, blobs)
-                    U.put_file(base.with_suffix(".new"), "a", blobs)
-                    U.put_file(base.with_suffix(".bak"), "a", blobs)
+                    U.put_file(U.new_path(base), "a", blobs)
+                    U.put_file(U.bak_path(base), "a", blobs)
                     impl.last_save_time = 0.0
                     ip.save_calls = j - 1
                     ip.crash, ip.crash_save, ip.fired = None, None, False
@@ -372,7 +372,7 @@ def kill_level(rep: Report, cx: Ctx, rng, sysd, reorder, ref, pad: int, n_saves:
                 reset()
                 U.put_file(base, f"c{j}", blobs)
                 ip.save_calls = j
-            for q in (base, base.with_suffix(".new"), base.with_suffix(".bak")):
+            for q in (base, U.new_path(base), U.bak_path(base)):
                 if q.exists():
                     q.unlink()
 
@@ -453,10 +453,12 @@ ALIAS_CLASS = "autosave-suffix-new-in-place"
 
 
 def aliased_level(rep: Report, cx: Ctx, sysd, reorder):
-    """Known finding (unchanged tree): `MPSBackend.resume` of a file whose suffix is `.new` — e.g. the complete
-    `.new` left by a crash between close and rename — makes `autosave_file.with_suffix(".new") == autosave_file`, so
-    every later autosave is written in place; an exception inside the write truncates the advertised file.
-    Replays the Lean witness `Props.C27.aliased_counterexample` on the real code."""
+    """Finding A1-C27 (fixed by 8d35338: the temporary name is now built by appending ".new"): `MPSBackend.resume` of a
+    file whose suffix is `.new` — e.g. the complete temporary file left by a crash between close and rename — used to make
+    `autosave_file.with_suffix(".new") == autosave_file`, so every later autosave was written in place and an exception
+    inside the write truncated the advertised file. Replays the Lean witness `Props.C27.aliased_counterexample` on the
+    real code for both spellings of such a name (`<uuid>.new`, `<uuid>.dat.new`): the autosaves of the resumed back-end
+    must go through a temporary file different from the advertised one and survive the exception."""
     import shutil as _sh
     from harness import autosave_util as U
     from emu_mps.mps_backend import MPSBackend
@@ -473,26 +475,36 @@ def aliased_level(rep: Report, cx: Ctx, sysd, reorder):
             impl.progress()
             impl.progress()
             base = Path(impl.autosave_file)
-            left = base.with_suffix(".new")
-            _sh.copy(base, left)                 # directory state b3 of the model: complete .new next to the old base
-            ip.save_calls, clock.now = 2, 200.0
-            ip.crash, ip.crash_save = ("mid", 1, 0.5), 4
-            status, err = U.run_injected(ip, lambda: MPSBackend.resume(left))
-            if status != "crash":
-                rep.count("aliased_witness_not_reached")
-                return
-            st = U.file_state(left)
-            third = ip.per_save[-2] if len(ip.per_save) >= 2 else []
-            rep.case(key=("aliased", sysd["kind"]), sample={"resumed_from": "<autosave>.new", "events_of_autosave_3": third,
-                                                             "advertised_after_crash_in_autosave_4": st})
-            cx.ask("autosave.aliased c3 4", ("aliased", st, U.canon_ops(third, 3)), dict(events=third))
-            if st not in ("c3", "c4"):
-                rep.fail(f"resumed from a file named *.new: autosaves are written in place ({third}); after an exception inside "
-                         f"the write of autosave 4 the advertised file is {'missing' if st == 'a' else 'not loadable'} "
-                         f"(the stale base still holds snapshot {U.file_state(base)})",
-                         dict(system=sysd, reorder=reorder, resumed_from="<autosave>.new (suffix .new)", crash_in_autosave=4,
-                              crash="exception inside pickle.dump after 50% of the bytes", events_of_autosave_3=third,
-                              advertised_file=st), klass=ALIAS_CLASS)
+            snap2 = base.read_bytes()
+            names = []
+            for q in (U.new_path(base), base.with_suffix(".new"), base.with_name(base.name + ".new")):
+                if q not in names:
+                    names.append(q)
+            for left in names:
+                for q in tmp.iterdir():
+                    q.unlink()
+                base.write_bytes(snap2)
+                left.write_bytes(snap2)             # directory state b3 of the model: complete temp file next to the old base
+                ip.save_calls, clock.now = 2, 200.0
+                ip.per_save.clear()
+                ip.crash, ip.crash_save, ip.fired = ("mid", 1, 0.5), 4, False
+                status, err = U.run_injected(ip, lambda: MPSBackend.resume(left))
+                if status != "crash":
+                    rep.count("aliased_witness_not_reached")
+                    continue
+                st = U.file_state(left)
+                third = ip.per_save[-2] if len(ip.per_save) >= 2 else []
+                shown = left.name.replace(base.stem, "<uuid>")
+                rep.case(key=("aliased", sysd["kind"], shown), sample={"resumed_from": shown, "events_of_autosave_3": third,
+                                                                       "advertised_after_crash_in_autosave_4": st})
+                cx.ask("autosave.aliased c3 4", ("aliased", st, U.canon_ops(third, 3)), dict(events=third, resumed_from=shown))
+                if st not in ("c3", "c4"):
+                    rep.fail(f"resumed from {shown}: autosaves are written in place ({third}); after an exception inside "
+                             f"the write of autosave 4 the advertised file is {'missing' if st == 'a' else 'not loadable'} "
+                             f"(the stale <uuid>.dat still holds snapshot {U.file_state(base)})",
+                             dict(system=sysd, reorder=reorder, resumed_from=shown, crash_in_autosave=4,
+                                  crash="exception inside pickle.dump after 50% of the bytes", events_of_autosave_3=third,
+                                  advertised_file=st), klass=ALIAS_CLASS)
 
 
 def world_level(rep: Report, cx: Ctx, rng, sysd, reorder, n_runs):
@@ -559,10 +571,15 @@ def settle(rep: Report, cx: Ctx):
             continue
         if isinstance(real, tuple) and real[0] == "aliased":
             model = dict(x.split("=") for x in mo.split(";"))
-            want = "open:base,write:base:3,close:base:3,replace:base:base"
-            if real[2] and ",".join(real[2]) == want and model.get("m1", "").split("/")[0] != real[1]:
-                rep.broke(f"correspondence in-place save (resumed from *.new): model m1 {model.get('m1')} real advertised file {real[1]}")
-            rep.extra["resume_from_dot_new_writes_in_place"] = bool(real[2]) and ",".join(real[2]) == want
+            inplace = "open:base,write:base:3,close:base:3,replace:base:base"
+            current = "open:new,write:new:3,close:new:3,replace:new:base"
+            got = ",".join(real[2]) if real[2] else "-"
+            if got == inplace:
+                if model.get("m1", "").split("/")[0] != real[1]:
+                    rep.broke(f"correspondence in-place save (resumed from *.new): model m1 {model.get('m1')} real advertised file {real[1]}")
+            elif got != current:
+                rep.broke(f"correspondence operation trace of a back-end resumed from {ctx.get('resumed_from')}: model {current} real {got}")
+            rep.extra.setdefault("resume_from_dot_new_writes_in_place", []).append(got == inplace)
             continue
         if isinstance(real, tuple) and real[0] == "classify_unwind":
             model = dict(x.split("=") for x in mo.split(";"))
@@ -738,7 +755,7 @@ def replay(rep: Report, path: str) -> int:
                 for k in range(1, j):
                     impl.progress()
                 old = base.read_bytes()
-                for q, st in ((base.with_suffix(".new"), d["leftovers"][0]), (base.with_suffix(".bak"), d["leftovers"][1])):
+                for q, st in ((U.new_path(base), d["leftovers"][0]), (U.bak_path(base), d["leftovers"][1])):
                     U.put_file(q, "a" if st == "a" else "p" if st == "p" else "c0", {0: old})
                 events = d["events_of_an_undisturbed_save"]
                 idx = next((i for i, e in enumerate(events) if e == d["crash_before_event"]), None)
